@@ -183,8 +183,8 @@ pub trait CharacterDataMut: CharacterData + NodeMut {
     fn delete_data(&self, offset: usize, count: usize) -> error::Result<()>;
 
     fn replace_data(&self, offset: usize, count: usize, arg: &str) -> error::Result<()> {
-        self.delete_data(offset, count)?;
-        self.insert_data(offset, arg)
+        self.insert_data(offset, arg)?;
+        self.delete_data(offset + arg.chars().count(), count)
     }
 }
 
